@@ -20,9 +20,11 @@ RULE = ("All 1440 minutes of the day x every clock notation of the frozen vocabu
 F24 = ["{h}:{mi:02d}", "{h:02d}:{mi:02d}", "{h}h{mi:02d}", "{h}uhr{mi:02d}", "{h}:{mi:02d} Uhr", "{h:02d}:{mi:02d}h",
        "{h:02d}:{mi:02d} uhr", "{h:02d}{mi:02d} Uhr", "{h:02d}{mi:02d}h", "um {h}:{mi:02d}", "at {h:02d}:{mi:02d}"]
 F12 = ["{h12}:{mi:02d}{ap}", "{h12}:{mi:02d} {ap}", "{h12}:{mi:02d} {a_p}", "{h12}.{mi:02d}{AP}", "{h12:02d}:{mi:02d}{ap}",
-       "{h12}:{mi:02d}{a_p}", "at {h12}:{mi:02d} {AP}"]
+       "{h12}:{mi:02d}{a_p}", "at {h12}:{mi:02d} {AP}",
+       # the marker pattern is [ap]\.?m\.? : one dot only ('p.m', sentence-final 'pm.') is a spelling too
+       "{h12}:{mi:02d} {a_p1}", "{h12}:{mi:02d}{ap}.", "{h12}:{mi:02d} {ap}."]
 HOUR24 = ["{h} Uhr", "{h} uhr", "{h}uhr", "{h} o'clock", "{h} oclock", "{h:02d} Uhr", "um {h} Uhr"]
-HOUR12 = ["{h12}{ap}", "{h12} {ap}", "{h12} {a_p}", "{h12}{AP}", "at {h12}{ap}"]
+HOUR12 = ["{h12}{ap}", "{h12} {ap}", "{h12} {a_p}", "{h12}{AP}", "at {h12}{ap}", "{h12}{ap}.", "{h12} {a_p1}"]
 NAMED_EN = ["one", "two", "three", "four", "five", "six", "seven", "eight", "nine", "ten", "eleven", "twelve"]
 NAMED_DE = ["eins", "zwei", "drei", "vier", "fünf", "sechs", "sieben", "acht", "neun", "zehn", "elf", "zwölf"]
 NAMED_TPL = ["{n}", "{n} o'clock", "{n} uhr", "{n} oclock", "at {n}", "um {n}"]
@@ -45,7 +47,7 @@ GERMAN_PODS = ("abends", "nachmittags", "nachts", "morgens", "vormittags", "am s
 def fmt(tpl, h, mi):
     h12 = h % 12 or 12
     ap = "am" if h < 12 else "pm"
-    return tpl.format(h=h, mi=mi, h12=h12, ap=ap, AP=ap.upper(), a_p=ap[0] + ".m.")
+    return tpl.format(h=h, mi=mi, h12=h12, ap=ap, AP=ap.upper(), a_p=ap[0] + ".m.", a_p1=ap[0] + ".m")
 
 
 def items_for_minute(h, mi):
